@@ -7,6 +7,7 @@ from .mir import expr_str, walk, callee_is, const_int, op_place, strip_generics
 
 PROP = "C15"
 SCOPE_FILES = ("src/uci.rs", "src/uci/uci_command.rs", "src/main.rs", "src/logger.rs")
+SCOPE_MODULES = ("uci::", "<uci::", "logger::", "<logger::")
 ROOTS = ("uci::start", "main")
 UCI_LOOP = "uci::Uci::uci_loop"
 EXEC = "uci::Uci::execute_command"
@@ -62,7 +63,8 @@ def scope_bodies(ix):
     out = []
     for k in sorted(reach):
         b = ix.bodies[k]
-        if b.kind in ("fn", "closure") and b.file in SCOPE_FILES:
+        # the input layer: by source file, or (a file renamed or split) by module path
+        if b.kind in ("fn", "closure") and (b.file in SCOPE_FILES or k.startswith(SCOPE_MODULES) or k in ("main", "start")):
             out.append(b)
     return out, reach
 
@@ -206,9 +208,11 @@ def type_max_of_index(ix, b, op):
     elif e[0] == "cast" and e[2] == "usize":
         p = op_place(op)
         inner = e[1]
-        # the operand's own type is usize; look at what was cast
-        if inner[0] in ("field", "arg", "var"):
-            src = None
+        # the operand's own type is usize; look at what was cast (`x as usize` of a u8 / u16 is as bounded as usize::from(x))
+        if p is not None and mir.is_local(p):
+            sd = b.single_def(p["l"])
+            if sd is not None and sd[2].get("k") == "cast" and sd[2].get("ck") == "IntToInt" and sd[2].get("from") in ("u8", "u16") and sd[2].get("to") == "usize":
+                src = sd[2]["from"]
     return {"u8": 255, "u16": 65535}.get(src)
 
 
